@@ -572,11 +572,20 @@ class Gen:
                        r.choice(env['data']) if env['data'] and r.chance(0.4) else None]
         else:
             act = ['null']
+        at_before_start = (list(env['data']), list(env['progs']))
         before = instrs('before', 0, 2)
         at_assert_start = (list(env['data']), list(env['progs']))
         assert_ = instrs('assert', 0, 2)
         hide_for_cleanup()
         cleanup = instrs('cleanup', 0, 2)
+        if r.chance(0.15):
+            # a failure in [cleanup] on top of whatever failed before: which one is reported?  (appended: it may use
+            # what [cleanup] itself defines)
+            cleanup.append(['run', 'run', False, self.use_site(env, 1, r.randint(1, 255))])
+        if r.chance(0.12):
+            before.insert(r.randint(0, len(before)), ['run', 'run', False, self.use_site(
+                {'data': at_assert_start[0][:0] + [n for n in at_before_start[0]],
+                 'progs': list(at_before_start[1]), 'shell': env['shell']}, 1, r.randint(1, 255))])
         # the assertions added to [assert] below (at any position) may use what is defined when [assert] starts
         env['data'], env['progs'] = at_assert_start
         # the order of the sections in the FILE is free (execution order is fixed): shuffle it, and sometimes split
@@ -1018,7 +1027,7 @@ class Runner:
             return self.run(case)
         except Exception:
             import traceback
-            return {'exit': -1, 'stdout_is_sds': False, 'exception': 'harness: ' + traceback.format_exc()[-600:],
+            return {'exit': -1, 'phase': 97, 'stdout_is_sds': False, 'exception': 'harness: ' + traceback.format_exc()[-600:],
                     'procs': [], 'result': None, 'caps': [], 'source': None, 'report': 'observation failed',
                     'case_text': '<observation failed>'}
 
@@ -1082,7 +1091,11 @@ class Runner:
         first_err_line = ''
         if r.exit_code != 0:
             first_err_line = ' | '.join(r.err.strip().split('\n')[:12])[:700]
-        return {'exit': r.exit_code, 'stdout_is_sds': bool(sds) and r.out.strip() == sds,
+        # the phase the program says the failure is in: the "In [phase]" line of its error report
+        m = re.search(r'^In \[([a-z-]+)\]\s*$', r.err, re.M)
+        phase = 0 if r.exit_code == 0 else (
+            {'setup': 1, 'act': 2, 'before-assert': 3, 'assert': 4, 'cleanup': 5}.get(m.group(1), 98) if m else 99)
+        return {'exit': r.exit_code, 'phase': phase, 'stdout_is_sds': bool(sds) and r.out.strip() == sds,
                 'exception': repr(r.exception) if r.exception else None,
                 'procs': procs, 'result': result, 'caps': caps, 'source': source, 'report': first_err_line,
                 'case_text': text if len(text) < 6000 else text[:6000]}
@@ -1294,7 +1307,7 @@ def c_case(case, obs, files):
         except ValueError:
             act_obs = '(Some %s)' % c_outcome(999998, res[1], res[2])
     verdict = verdict_code(obs['exit']) if obs['exception'] is None else 98
-    o = '(Obs %s %s %s %s %s)' % (cN(verdict), clist(procs) if procs else '(@nil pobs)', act_obs,
+    o = '(Obs %s %s %s %s %s %s)' % (cN(verdict), cN(obs.get('phase', 96)), clist(procs) if procs else '(@nil pobs)', act_obs,
                                  copt(obs['source'], ctext),
                                  clist(['(%s, %s)' % (cN(k), ctext(t)) for k, t in obs['caps']]) if obs['caps']
                                  else '(@nil (N * text))')
@@ -1473,9 +1486,20 @@ def sweep_cases(codes, rng):
     out = []
     script = ['str', [['c', '{HOME}/probe.py']], 'bare']
 
-    def probe(ctl):
-        return ['cmd', ['sys', [['c', PY]], 'bare'], [script, ['str', [['c', '--x=' + ctl]], 'bare']], [], []]
+    def probe(ctl, stdin=()):
+        return ['cmd', ['sys', [['c', PY]], 'bare'], [script, ['str', [['c', '--x=' + ctl]], 'bare']], list(stdin), []]
 
+    # which failure is reported when [cleanup] fails too: a failing `run` in each phase, a failing `run` in [cleanup]
+    for ph in ('setup', 'act', 'before', 'assert'):
+        for code2 in (0, 9):
+            c = {'setup': [], 'act': ['null'], 'before': [], 'assert': [],
+                 'cleanup': [['run', 'run', False, probe('%d,1,1' % code2)], ['run', 'run', False, probe('0,0,0')]]}
+            if ph == 'act':
+                c['act'] = ['command', probe('0,0,0', stdin=[['prog', 'out', False, probe('7,1,1')]])]
+            else:
+                c[ph] = [['run', 'run', False, probe('0,0,0')], ['run', 'run', False, probe('7,1,0')],
+                         ['run', 'run', False, probe('0,0,0')]]
+            out.append(c)
     for k in codes:
         o, e = rng.below(len(OUTS)), rng.below(len(OUTS))
         out.append({'setup': [], 'act': ['command', probe('%d,%d,%d' % (k, o, e))], 'before': [],
@@ -1505,7 +1529,8 @@ def evaluate(ctx, res, cases, tag='cases'):
 
 def describe(case, obs):
     return {'case_file': obs['case_text'], 'abstract_case': case,
-            'observed': {k: obs[k] for k in ('exit', 'exception', 'procs', 'result', 'caps', 'source', 'report')}}
+            'observed': {k: obs[k] for k in ('exit', 'phase', 'exception', 'procs', 'result', 'caps', 'source',
+                                             'report')}}
 
 
 def gen_tables(ctx):
